@@ -635,6 +635,9 @@ structure LuaData where
   spec : Option J
   labels : Option (List (String × J))
   annotations : Option (List (String × J))
+  /-- keys of `spec` whose value is a table with both string keys and an array part
+      (`table.insert` on a non-empty map): harmless until it is encoded, then `Encode` fails -/
+  mixed : List String := []
 
 def evalVal (stable canary : String) (s : Strategy) : Val → J
   | .weight => .int (canaryWeight s)
@@ -650,13 +653,14 @@ def execStmt (stable canary : String) (s : Strategy) : Stmt → LuaData → Opti
   | .ensureSpec, d => some (match d.spec with | none => { d with spec := some (.obj []) } | some _ => d)
   | .setSpec k v, d =>
     match d.spec with
-    | some (.obj kvs) => some { d with spec := some (.obj (setKey k (evalVal stable canary s v) kvs)) }
+    | some (.obj kvs) => some { d with spec := some (.obj (setKey k (evalVal stable canary s v) kvs))
+                                       mixed := d.mixed.filter (· != k) }
     | some (.arr []) => some { d with spec := some (.obj [(k, evalVal stable canary s v)]) }
     | _ => none
   | .delSpec k, d =>
     match d.spec with
-    | some (.obj kvs) => some { d with spec := some (.obj (eraseKey k kvs)) }
-    | some (.arr []) => some d
+    | some (.obj kvs) => some { d with spec := some (.obj (eraseKey k kvs)), mixed := d.mixed.filter (· != k) }
+    | some (.arr _) => some d
     | _ => none
   | .appendSpec k v, d =>
     match d.spec with
@@ -664,6 +668,7 @@ def execStmt (stable canary : String) (s : Strategy) : Stmt → LuaData → Opti
       match lookup k kvs with
       | some (.arr xs) => some { d with spec := some (.obj (setKey k (.arr (xs ++ [evalVal stable canary s v])) kvs)) }
       | some (.obj []) => some { d with spec := some (.obj (setKey k (.arr [evalVal stable canary s v]) kvs)) }
+      | some (.obj _) => some { d with mixed := k :: d.mixed }   -- appended at index 1 of a map: mixed table
       | _ => none
     | _ => none
   | .setLabel k v, d => some { d with labels := some (setKey k (evalVal stable canary s v) (d.labels.getD [])) }
@@ -700,8 +705,10 @@ def genScript (stable canary : String) (g : GenScript) : Script := fun d s =>
     | .number => none                     -- "expect table output from Lua script"
     | .empty => some { spec := .null, labels := [], annotations := [] }
     | .data =>
-      match strMapOf (d1.labels.getD []), strMapOf (d1.annotations.getD []) with
-      | some l, some a => some { spec := (d1.spec.map encJ).getD .null, labels := l, annotations := a }
-      | _, _ => none
+      if d1.mixed ≠ [] then none            -- "cannot encode mixed or invalid key types"
+      else
+        match strMapOf (d1.labels.getD []), strMapOf (d1.annotations.getD []) with
+        | some l, some a => some { spec := (d1.spec.map encJ).getD .null, labels := l, annotations := a }
+        | _, _ => none
 
 end RV.Custom
